@@ -128,7 +128,7 @@ func isJSONText(b []byte) bool {
 // headerFields locates candidate length/flag/presence fields structurally: every byte of the first 64,
 // every position holding a small little-endian 64-bit or 32-bit integer (lengths, counts, decomposition
 // parameters, Galois elements look like that; uniformly random coefficient words do not). JSON texts:
-// every byte. The list is capped (quick 224 / thorough 4000 per object), keeping the earliest fields and an
+// every byte. The list is capped (quick 320 / thorough 12000 per object), keeping the earliest fields and an
 // even sample of the rest.
 func headerFields(ref []byte, tier string) []field {
 	var fs []field
@@ -152,9 +152,9 @@ func headerFields(ref []byte, tier string) []field {
 			}
 		}
 	}
-	limit, head := 224, 160
+	limit, head := 320, 200
 	if tier == "thorough" {
-		limit, head = 4000, 1000
+		limit, head = 12000, 2000
 	}
 	if len(fs) <= limit {
 		return fs
@@ -420,10 +420,13 @@ func famCorruption(t *lc) {
 func corruptionValue(x *lc, d decoder) bool {
 	ref, _ := x.o.ref(d)
 	fs := headerFields(ref, x.c.Tier)
-	if x.c.Tier == "quick" && len(fs) > 96 && (x.e.heavy || (d.method == "ReadFrom" && x.o.a.bu != nil)) {
-		// quick tier: parameter sets (decoding builds rings: milliseconds per accepted variant) and the second
-		// binary decoder of a type (same decoding code behind a bufio.Reader instead of a buffer.Buffer) get the
-		// first 96 fields only
+	if x.c.Tier == "quick" && len(fs) > 128 && !x.e.heavy && d.method == "ReadFrom" && x.o.a.bu != nil {
+		fs = fs[:128]
+	}
+	if x.c.Tier == "quick" && len(fs) > 96 && x.e.heavy {
+		// quick tier: the second binary decoder of a type (same decoding code behind a bufio.Reader instead of a
+		// buffer.Buffer) gets the first 128 fields, parameter sets (decoding builds rings: milliseconds per accepted
+		// variant) the first 96
 		fs = fs[:96]
 	}
 	if len(fs) == 0 {
